@@ -1,5 +1,5 @@
 """C02 - the safe API yields only valid positions; a move is accepted iff it is legal."""
-from . import apirules, sanrules, hashrules, attackrules, validaterules
+from . import apirules, sanrules, hashrules, attackrules, validaterules, genrules
 from .common import sim_rules
 
 from .aisetup import total_roots_rule
@@ -11,6 +11,7 @@ def run(ctx):
         "M1/M3 every path of every Make::make_raw that returns Ok has made exactly one make_move_unchecked on a certified move: validated "
         "semilegal on that board and followed by a negative is_opponent_king_attacked test (Move, uci::Move, Uci<S>), or the Ok payload of a "
         "certified legal producer on that board (san::Move, San<S>), or the wrapper's unsafe constructor contract (Unchecked, TryUnchecked)",
+        "M3s the semilegality validator accepts a well-formed move exactly under the conditions of the rules (C06/G6, abstract boards)",
         "M2 certified producers: san::Data::into_move returns Ok only after validate or from a LegalFilter-fed searcher (C09/S1)",
         "M4 every path returning Err has not mutated the board, or has rolled back with the same move and the undo record of that make; "
         "Ok paths return exactly (the move made, its undo record)",
@@ -32,6 +33,7 @@ def run(ctx):
         ("make_try_unchecked_raw", "TryUnchecked::make_raw"), ("board_make_move", "Board::make_move"),
     ], "the safe make API never panics: no assertion, panic or unsafe precondition reachable on a valid Board")
     sanrules.producer_rule(ctx, facts, "M2")
+    genrules.semilegal_rule(ctx, facts, "M3s", thorough=True)
     hashrules.writers_rule(ctx, facts, "M6")
     attackrules.prechecker_rule(ctx, facts, "M7")
     validaterules.errors_rule(ctx, facts, "M8")
